@@ -59,6 +59,8 @@ class Watch:
             try:
                 r = orig(*args, **kw)
             except BaseException as e:
+                if not isinstance(e, Exception):
+                    raise           # the harness's own per-case deadline passing through: nothing to judge
                 if snap is not None:
                     ctx.count('adder_calls_near_cap')
                     now = list(map(id, c)) if isinstance(c, list) else [(k, id(v)) for k, v in c.items()]
